@@ -69,3 +69,97 @@ PBT_PROPERTY(random) {
     default: c15_random_fam2(src, entry, n, kind); break;
     }
 }
+
+// ---- types: comparator objects owning state, destructive-move elements, non-pointer iterators, user compare-exchange
+// functors (C15_types_impl.hpp). Separate targets: the byte -> case mapping of `zero_one` and `random` is unchanged.
+
+#include "../engine/tracked.hpp"
+#include "C15_types_case.hpp"
+// family f, part a..d = configurations 0..2, 3..5, 6..8, 9..11
+void c15_types_fam0_a(int cfg, const c15t::Case& c);
+void c15_types_fam0_b(int cfg, const c15t::Case& c);
+void c15_types_fam0_c(int cfg, const c15t::Case& c);
+void c15_types_fam0_d(int cfg, const c15t::Case& c);
+void c15_types_fam1_a(int cfg, const c15t::Case& c);
+void c15_types_fam1_b(int cfg, const c15t::Case& c);
+void c15_types_fam1_c(int cfg, const c15t::Case& c);
+void c15_types_fam1_d(int cfg, const c15t::Case& c);
+void c15_types_fam2_a(int cfg, const c15t::Case& c);
+void c15_types_fam2_b(int cfg, const c15t::Case& c);
+void c15_types_fam2_c(int cfg, const c15t::Case& c);
+void c15_types_fam2_d(int cfg, const c15t::Case& c);
+void c15_zero_one_cmp_fam0(int kind, int mode, int n, uint32_t first, uint32_t last);
+void c15_zero_one_cmp_fam1(int kind, int mode, int n, uint32_t first, uint32_t last);
+void c15_zero_one_cmp_fam2(int kind, int mode, int n, uint32_t first, uint32_t last);
+
+namespace {
+struct CmpWorkItem {
+    int fam, kind, mode, n;
+    uint32_t first, last;
+};
+//! (family, comparator kind / string elements, entry point, n, block of <= 2048 zero-one inputs)
+std::vector<CmpWorkItem> all_cmp_items(bool heavy) {
+    std::vector<CmpWorkItem> v;
+    for (int fam = 0; fam < 3; ++fam)
+        for (int kind = heavy ? 4 : 0; kind < (heavy ? 7 : 4); ++kind)
+            for (int mode = 0; mode < 2; ++mode)
+                for (int n = (mode == 0 ? 2 : 0); n <= 16; ++n) {
+                    uint32_t total = 1u << n;
+                    for (uint32_t b = 0; b < total; b += 2048) v.push_back({fam, kind, mode, n, b, b + 2048 < total ? b + 2048 : total});
+                }
+    return v;
+}
+} // namespace
+
+static void zero_one_cmp_chunk(pbt::Source& src, bool heavy) {
+    uint64_t idx = src.bits(8), total = src.bits(8);
+    if (total == 0) total = 1, idx = 0;
+    std::vector<CmpWorkItem> items = all_cmp_items(heavy);
+    uint64_t inputs = 0;
+    for (uint64_t t = idx; t < items.size(); t += total) {
+        const CmpWorkItem& w = items[t];
+        switch (w.fam) {
+        case 0: c15_zero_one_cmp_fam0(w.kind, w.mode, w.n, w.first, w.last); break;
+        case 1: c15_zero_one_cmp_fam1(w.kind, w.mode, w.n, w.first, w.last); break;
+        default: c15_zero_one_cmp_fam2(w.kind, w.mode, w.n, w.first, w.last); break;
+        }
+        inputs += w.last - w.first;
+    }
+    pbt::count(inputs);
+    pbt::label("chunk");
+    pbt::nontrivial();
+    PBT_LOG((heavy ? "zero_one_cmp_heavy" : "zero_one_cmp") << " chunk " << idx << "/" << total << ": " << inputs << " zero-one inputs of " << items.size()
+                                                            << " work items\n");
+}
+// comparator state that lives inside the object (cheap copies, destructive moves) + std::string elements
+PBT_PROPERTY(zero_one_cmp) { zero_one_cmp_chunk(src, false); }
+// comparator state on the heap (every copy allocates): thorough tier
+PBT_PROPERTY(zero_one_cmp_heavy) { zero_one_cmp_chunk(src, true); }
+
+PBT_PROPERTY(types) {
+    verif::Ledger::get().reset();
+    int fam = (int)src.range(0, 2);
+    int cfg = (int)src.range(0, 11);
+    c15t::Case c;
+    c.entry = (int)src.range(0, 3);
+    // sizes: uniform over 0..16, with extra weight on the largest networks (the most comparators)
+    c.n = src.chance(64) ? 13 + (int)src.range(0, 3) : (int)src.range(0, 16);
+    c.nkeys = 2 + (int)src.range(0, 6);
+    for (int k = 0; k < 16; ++k) c.rank[(size_t)k] = k < c.nkeys ? (int)src.range(0, c.nkeys - 1) : 0;
+    for (int i = 0; i < 16; ++i) c.keys[i] = i < c.n ? (int)src.range(0, c.nkeys - 1) : 0;
+    c.p = (unsigned)src.range(0, 255);
+    c.q = (unsigned)src.range(0, 255);
+    c.light = src.boolean();
+    static const char* const FL[3] = {"family:best", "family:bose_nelson", "family:bose_nelson_parameter"};
+    static const char* const NL[17] = {"n=0", "n=1", "n=2", "n=3", "n=4", "n=5", "n=6", "n=7", "n=8",
+                                       "n=9", "n=10", "n=11", "n=12", "n=13", "n=14", "n=15", "n=16"};
+    pbt::label(FL[fam]);
+    pbt::label(NL[c.n]);
+    typedef void (*PartFn)(int, const c15t::Case&);
+    static const PartFn PART[3][4] = {{c15_types_fam0_a, c15_types_fam0_b, c15_types_fam0_c, c15_types_fam0_d},
+                                      {c15_types_fam1_a, c15_types_fam1_b, c15_types_fam1_c, c15_types_fam1_d},
+                                      {c15_types_fam2_a, c15_types_fam2_b, c15_types_fam2_c, c15_types_fam2_d}};
+    PART[fam][cfg / 3](cfg, c);
+    PBT_CHECK(verif::Ledger::get().live_count() == 0, "C15/lifetime", "elements still alive after the input and all copies were destroyed: "
+                                                                          << verif::Ledger::get().live_count());
+}
